@@ -111,6 +111,13 @@ def run_family(ctx, famname, tasks, function, text):
                                    function=function,
                                    solver_output='%s: %s' % (st, r.get('why') or r.get('problems')),
                                    text=text)
+        elif st == 'resetmismatch':
+            ctx.confirm_and_report(obl + '.reset', 'reset_corr',
+                                   dict(design=design, passname=passname),
+                                   canonical_input=dict(design=design, passname=passname,
+                                                        what='reset values'),
+                                   function=function, solver_output=str(r.get('problems')),
+                                   text=text + ' (register reset values not carried over)')
         elif st == 'unknown':
             ctx.notes.append('%s: solver unknown' % obl)
         elif st == 'skip':
